@@ -246,12 +246,16 @@ func (s *Segment) DocsMatchingTerms(terms []segment.Term) (*roaring.Bitmap, erro
 		var dict *Dictionary
 		for i, term := range terms {
 			thisField := term.Field()
-			if thisField != lastField {
+			if dict == nil || thisField != lastField {
 				dict, err = s.dictionary(term.Field())
 				if err != nil {
 					return nil, err
 				}
 				lastField = thisField
+			}
+			if dict == nil {
+				// unknown field: contributes nothing
+				continue
 			}
 			term := terms[i]
 			postingsList := emptyPostingsList
